@@ -533,8 +533,8 @@ func x5CopyDir(src, dst string) error {
 }
 
 // crashImage: what a recovery finds on the disk as it is now
-func (c *x5Ctl) crashImage() x5Obs {
-	obs := x5Obs{A: "CrashImage", Ret: []interface{}{}}
+func (c *x5Ctl) crashImage() (obs x5Obs) {
+	obs = x5Obs{A: "CrashImage", Ret: []interface{}{}}
 	dst := vTempDir(c.t)
 	defer os.RemoveAll(dst)
 	if err := x5CopyDir(c.dir, dst); err != nil {
@@ -563,11 +563,12 @@ func (c *x5Ctl) crashImage() x5Obs {
 	return obs
 }
 
-func (c *x5Ctl) readNext(r *x5Rd) x5Obs {
-	obs := x5Obs{A: "RdNext", Ret: []interface{}{}}
+func (c *x5Ctl) readNext(r *x5Rd) (obs x5Obs) {
+	obs = x5Obs{A: "RdNext", Ret: []interface{}{}}
 	defer func() {
 		if x := recover(); x != nil {
 			obs.Err = fmt.Sprintf("panic:%v", x)
+			r.alive = false
 		}
 	}()
 	headers := make([]byte, msgSetHeaderLen)
@@ -587,7 +588,11 @@ func (c *x5Ctl) readNext(r *x5Rd) x5Obs {
 			return obs // nothing (more) to deliver now
 		}
 		obs.Err = x5ErrClass(err)
-		r.alive = false
+		// an error of the documented class ends this read, not the reader: the caller may try again
+		// (e.g. after the clean that replaced its segment has swapped the segment list)
+		if obs.Err != "replaced" && obs.Err != "notfound" && obs.Err != "closed" {
+			r.alive = false
+		}
 		return obs
 	}
 	rec := x5Rec{Off: off, Ep: int64(ep), Key: "?", ID: -1}
